@@ -498,7 +498,7 @@ def build(P):
             for b in range(1, 5):
                 if a == b: continue
                 A = ["A%d" % i for i in range(a)]; B = ["B%d" % i for i in range(b)]
-                for ch in ["name", "var", "arith", "byval", "return", "elem", "field", "getrecord", "getrecord0", "getrecord-field", "getrecord-elem"]:
+                for ch in ["name", "var", "arith", "byval", "return", "elem", "field", "getrecord", "getrecord0", "getrecord-field", "getrecord-elem", "whole-array", "whole-array-field", "byval-array-elem"]:
                     lines = ["TYPE TA = (%s)" % ", ".join(A), "TYPE TB = (%s)" % ", ".join(B), "DECLARE x : TA", "DECLARE y : TB", "y <- %s" % B[-1], "x <- %s" % A[0],
                              "PROCEDURE P(p : TA)", "OUTPUT p", "ENDPROCEDURE", "FUNCTION F() RETURNS TA", "RETURN y", "ENDFUNCTION",
                              "DECLARE arr : ARRAY[1:2] OF TA", "TYPE R", "DECLARE f : TA", "ENDTYPE", "DECLARE rr : R", "OUTPUT \"before \", x"]
@@ -509,6 +509,9 @@ def build(P):
                     elif ch == "return": lines.append("x <- F()")
                     elif ch == "elem": lines.append("arr[1] <- y")
                     elif ch == "field": lines.append("rr.f <- y + 0")
+                    elif ch == "whole-array": lines += ["DECLARE arrb : ARRAY[1:2] OF TB", "arrb[1] <- %s" % B[0], "arrb[2] <- %s" % B[-1], "arr <- arrb"]
+                    elif ch == "whole-array-field": lines += ["TYPE HA\nDECLARE m : ARRAY[1:2] OF TA\nENDTYPE", "TYPE HB\nDECLARE m : ARRAY[1:2] OF TB\nENDTYPE", "DECLARE ha : HA", "DECLARE hb : HB", "hb.m[1] <- %s" % B[0], "ha.m <- hb.m"]
+                    elif ch == "byval-array-elem": lines += ["DECLARE arrb : ARRAY[1:2] OF TB", "arrb[1] <- %s" % B[0], "CALL P(arrb[1])"]
                     elif ch.startswith("getrecord"):
                         # a TB value stored in a random file and read back into a TA target (variable, record with a TA field, array of TA)
                         src, dst = {"getrecord": ("y", "x"), "getrecord0": ("y", "x"), "getrecord-field": ("rb", "rr"), "getrecord-elem": ("arrb", "arr")}[ch]
